@@ -129,6 +129,10 @@ type verifWorldA struct {
 
 	crashes   int
 	abandoned bool
+	// checkpoints below floor were durable when the instance started;
+	// actionStart is the number of checkpoints when the last action began
+	floor       int
+	actionStart int
 }
 
 func (w *verifWorldA) handler(undo bool, gen int) state.HandlerFunc {
@@ -429,6 +433,7 @@ func verifRunA(c *verifsim.Ctx) {
 			continue
 		}
 		a := acts[c.Draw("act", len(acts))]
+		w.actionStart = len(w.payloads)
 		switch a.kind {
 		case "ensure":
 			w.ensure()
@@ -866,11 +871,23 @@ func (w *verifWorldA) crash() {
 	c.Nontrivial()
 	// which payload survives: the last one, or (power lost during the last
 	// write) the one before it
+	// which payload survives: any cut inside the last action (power lost
+	// before one of the writes it made), never below what was already durable
 	k := len(w.payloads) - 1
-	if k > 0 && c.Chance("crash-loses-last-checkpoint", 1, 3) {
-		k--
-		c.Count("fault:crash-lost-last-checkpoint")
+	lo := w.actionStart - 1
+	if lo < w.floor {
+		lo = w.floor
 	}
+	if lo < 0 {
+		lo = 0
+	}
+	if k > lo {
+		if d := c.Draw("crash-loses-checkpoints", k-lo+1); d > 0 {
+			k -= d
+			c.Count("fault:crash-lost-unsynced-checkpoints")
+		}
+	}
+	w.floor = k
 	payload := w.payloads[k]
 	w.payloads = w.payloads[:k+1]
 
@@ -975,6 +992,7 @@ func (w *verifWorldA) crash() {
 		}
 		vc.failedSeen = false
 		for _, vt := range vc.tasks {
+			vt.noRedo, vt.noReundo, vt.mustRun = false, false, false
 			t := st.Task(vt.id)
 			if t == nil {
 				continue
@@ -1222,7 +1240,9 @@ func (w *verifWorldA) finalOracles() {
 					if fails == 0 && (final[vt.id] != state.DoneStatus || !applied) {
 						c.Violate("C04/outcome-differs", "without a restart every task of change %d ends Done with its effect in place; %s is %v (last op %q); %s", vc.idx, vt.label, final[vt.id], vt.lastOp, dump())
 					}
-					if fails == 1 && (applied || final[vt.id] == state.DoneStatus) {
+					// a task that itself ended in Error (failed or killed in flight)
+					// cleans up after itself; its ledger entry is not judged
+					if fails == 1 && (final[vt.id] == state.DoneStatus || (applied && final[vt.id] != state.ErrorStatus)) {
 						c.Violate("C04/outcome-differs", "without a restart change %d ends in Error with every effect reverted; %s is %v (last op %q); %s", vc.idx, vt.label, final[vt.id], vt.lastOp, dump())
 					}
 				}
